@@ -735,9 +735,12 @@ class World:
         for t in threads:
             t.start()
         self._schedule_from(None)
-        self.main_sem.acquire()
+        if not self.main_sem.acquire(timeout=timeout if timeout else 300):
+            # a rank computes forever without communicating (runaway): give up on this world
+            self.abort = 'timeout'
+            self._release_all(None)
         for t in threads:
-            t.join(timeout=30)
+            t.join(timeout=5)
         _active[0] = None
         self._finalise()
         return self.results
@@ -1033,6 +1036,7 @@ class World:
         if me in cs.freed:
             raise SimError('%s on a freed communicator' % kind)
         k = cs.coll_seq[me]
+        site = _call_site()
 
         def enter():
             cs.coll_seq[me] = k + 1
@@ -1040,13 +1044,15 @@ class World:
                 cs.instances.append(None)
             inst = cs.instances[k]
             if inst is None:
-                inst = cs.instances[k] = dict(kind=kind, root=root, op=op, count=count, contrib={}, out=set(), result=None)
+                inst = cs.instances[k] = dict(kind=kind, root=root, op=op, count=count, contrib={}, out=set(), result=None,
+                                              site=site)
             elif inst['kind'] != kind or inst['root'] != root or (op is not None and inst['op'] is not op) or \
                     (count is not None and inst['count'] is not None and inst['count'] != count):
                 self.log.append(('cmismatch', w, cs.cid, k, kind, root))
                 raise SimError('collective mismatch on communicator %r, call #%d: rank %d calls %s(root=%r, op=%r, bytes=%r) '
-                               'but another member called %s(root=%r, op=%r, bytes=%r)'
-                               % (cs.cid, k, me, kind, root, op, count, inst['kind'], inst['root'], inst['op'], inst['count']))
+                               'but another member called %s(root=%r, op=%r, bytes=%r) [calls: %s] [sites: %s]'
+                               % (cs.cid, k, me, kind, root, op, count, inst['kind'], inst['root'], inst['op'], inst['count'],
+                                  '/'.join(sorted([kind, inst['kind']])), ' | '.join(sorted([site, inst['site']]))))
             inst['contrib'][me] = data
             self.log.append(('center', w, cs.cid, k, kind, root, me, self._chash(data)))
 
